@@ -1,14 +1,793 @@
-(** Lemmas about the sampler model. *)
-From Coq Require Import ZArith List Bool SpecFloat Lia.
-From V Require Import Sample.F32 Sample.Model.
+(** Lemmas about the sampler model (Model.v).  The facts about binary32 arithmetic come from F32Facts.v
+    (proved there from Flocq); [exp] is the Section variable [E] with four hypotheses. *)
+From Coq Require Import ZArith List Bool SpecFloat Lia Reals Lra Permutation Sorted.
+From V Require Import Sample.F32 Sample.Model Sample.F32Facts.
 Import ListNotations.
 Open Scope Z_scope.
 
-Lemma greedy_from_In : forall l mx, In (greedy_from mx l) (mx :: l).
+Lemma flt_nan_r : forall a b, is_nan b = true -> flt a b = false.
+Proof. intros a [s|s| |s m e] H; try easy. now destruct a as [s'|[|]| |[|] m' e']. Qed.
+
+Lemma firstn_In : forall (A : Type) (n : nat) (l : list A) (x : A), In x (firstn n l) -> In x l.
+Proof. intros A n l x H. rewrite <- (firstn_skipn n l). apply in_or_app. now left. Qed.
+
+Lemma skipn_In : forall (A : Type) (n : nat) (l : list A) (x : A), In x (skipn n l) -> In x l.
+Proof. intros A n l x H. rewrite <- (firstn_skipn n l). apply in_or_app. now right. Qed.
+
+Definition numl (l : list tok) : Prop := Forall (fun t => num (tv t)) l.
+
+Lemma numl_In : forall l t, numl l -> In t l -> num (tv t).
+Proof. intros l t H Hin. exact (proj1 (Forall_forall _ _) H t Hin). Qed.
+
+Lemma numl_firstn : forall n l, numl l -> numl (firstn n l).
+Proof. intros n l H. apply Forall_forall. intros t Ht. apply (numl_In l); [easy|]. now apply firstn_In in Ht. Qed.
+
+(** * greedy *)
+Lemma greedy_from_max : forall l mx, num (tv mx) -> numl l ->
+  In (greedy_from mx l) (mx :: l) /\ num (tv (greedy_from mx l)) /\
+  (rk (tv mx) <= rk (tv (greedy_from mx l)))%R /\
+  forall t, In t l -> (rk (tv t) <= rk (tv (greedy_from mx l)))%R.
 Proof.
-  induction l as [|t r IH]; intros mx; cbn [greedy_from].
-  - now left.
-  - destruct (IH (if fgt (tv t) (tv mx) then t else mx)) as [H|H].
-    + destruct (fgt (tv t) (tv mx)); rewrite <- H; [right; now left | now left].
-    + right; now right.
+  induction l as [|t r IH]; intros mx Hm Hl; cbn [greedy_from].
+  - split; [now left|]. split; [easy|]. split; [lra|]. intros t [].
+  - inversion Hl as [|? ? Ht Hr]; subst.
+    set (mx' := if fgt (tv t) (tv mx) then t else mx).
+    assert (Hm' : num (tv mx')) by (unfold mx'; now destruct (fgt (tv t) (tv mx))).
+    assert (Ge : (rk (tv mx) <= rk (tv mx'))%R /\ (rk (tv t) <= rk (tv mx'))%R).
+    { unfold mx', fgt. destruct (flt (tv mx) (tv t)) eqn:F.
+      - apply flt_true_iff in F; try easy. lra.
+      - apply flt_false_iff in F; try easy. lra. }
+    destruct (IH mx' Hm' Hr) as (I1 & I2 & I3 & I4).
+    split; [|split; [easy|split]].
+    + destruct I1 as [I1|I1].
+      * rewrite <- I1. unfold mx'. destruct (fgt (tv t) (tv mx)); [right; now left|now left].
+      * right; now right.
+    + lra.
+    + intros u [<-|Hu]; [lra|now apply I4].
+Qed.
+
+(** * enumerate *)
+Lemma enumerate_length : forall l s, length (enumerate s l) = length l.
+Proof. induction l; intros; cbn; [easy|now rewrite IHl]. Qed.
+
+Lemma enumerate_map_tv : forall l s, map tv (enumerate s l) = l.
+Proof. induction l; intros; cbn; [easy|now rewrite IHl]. Qed.
+
+Lemma enumerate_In : forall l s t, In t (enumerate s l) ->
+  s <= tid t < s + Z.of_nat (length l) /\ nth_error l (Z.to_nat (tid t - s)) = Some (tv t).
+Proof.
+  induction l as [|v r IH]; intros s t H; [easy|].
+  cbn [enumerate] in H. destruct H as [<-|H].
+  - cbn [tid tv fst snd length]. split; [lia|]. now rewrite Z.sub_diag.
+  - apply IH in H. destruct H as [H1 H2]. cbn [length]. split; [lia|].
+    replace (Z.to_nat (tid t - s)) with (S (Z.to_nat (tid t - (s + 1)))) by lia. exact H2.
+Qed.
+
+Lemma enumerate_numl : forall l s, Forall num l -> numl (enumerate s l).
+Proof. induction l; intros s H; cbn; constructor; inversion H; subst; [easy|now apply IHl]. Qed.
+
+Lemma enumerate_vals : forall l s v, In v l -> exists t, In t (enumerate s l) /\ tv t = v.
+Proof.
+  induction l as [|a r IH]; intros s v H; [easy|]. destruct H as [<-|H].
+  - exists (s, a). split; [now left|easy].
+  - destruct (IH (s + 1) v H) as (t & T1 & T2). exists t. split; [now right|easy].
+Qed.
+
+(** * topK: the specification-level sort, and what any legal topK result satisfies *)
+Definition desc (a b : tok) : Prop := flt (tv a) (tv b) = false.
+Definition descR (a b : tok) : Prop := (rk (tv b) <= rk (tv a))%R.
+
+Lemma insert_desc_perm : forall x l, Permutation (insert_desc x l) (x :: l).
+Proof.
+  induction l as [|y r IH]; cbn [insert_desc]; [easy|].
+  destruct (flt (tv x) (tv y)); [|easy].
+  rewrite IH. apply perm_swap.
+Qed.
+
+Lemma sort_desc_perm : forall l, Permutation (sort_desc l) l.
+Proof.
+  induction l as [|x r IH]; [easy|]. unfold sort_desc in *. cbn [fold_right].
+  rewrite insert_desc_perm. now constructor.
+Qed.
+
+Lemma numl_perm : forall l l', Permutation l l' -> numl l -> numl l'.
+Proof. intros l l' P H. unfold numl. now rewrite <- P. Qed.
+
+Lemma insert_desc_sorted : forall x l, num (tv x) -> numl l ->
+  StronglySorted descR l -> StronglySorted descR (insert_desc x l).
+Proof.
+  induction l as [|y r IH]; intros Hx Hl Hs; cbn [insert_desc].
+  - constructor; constructor.
+  - inversion Hl as [|? ? Hy Hr]; subst. inversion Hs as [|? ? Sr Fy]; subst.
+    destruct (flt (tv x) (tv y)) eqn:F.
+    + apply flt_true_iff in F; try easy.
+      constructor; [now apply IH|].
+      apply Forall_forall. intros t Ht.
+      apply (Permutation_in _ (insert_desc_perm x r)) in Ht. destruct Ht as [<-|Ht].
+      * unfold descR. lra.
+      * now apply (proj1 (Forall_forall _ _) Fy).
+    + apply flt_false_iff in F; try easy.
+      constructor; [now constructor|].
+      constructor; [exact F|].
+      apply Forall_forall. intros t Ht. apply (proj1 (Forall_forall _ _) Fy) in Ht. unfold descR in *. lra.
+Qed.
+
+Lemma sort_desc_sorted : forall l, numl l -> StronglySorted descR (sort_desc l).
+Proof.
+  induction l as [|x r IH]; intros H; [constructor|]. inversion H; subst.
+  unfold sort_desc in *. cbn [fold_right]. apply insert_desc_sorted; try easy.
+  - apply (numl_perm r); [|easy]. symmetry. apply sort_desc_perm.
+  - now apply IH.
+Qed.
+
+Lemma descR_desc : forall l, numl l -> StronglySorted descR l -> StronglySorted desc l.
+Proof.
+  induction l as [|x r IH]; intros Hl Hs; [constructor|].
+  inversion Hl; subst. inversion Hs as [|? ? Sr Fx]; subst. constructor; [now apply IH|].
+  apply Forall_forall. intros t Ht. unfold desc. apply flt_false_iff; try easy.
+  - now apply (numl_In r).
+  - now apply (proj1 (Forall_forall _ _) Fx).
+Qed.
+
+Lemma desc_descR : forall l, numl l -> StronglySorted desc l -> StronglySorted descR l.
+Proof.
+  induction l as [|x r IH]; intros Hl Hs; [constructor|].
+  inversion Hl; subst. inversion Hs as [|? ? Sr Fx]; subst. constructor; [now apply IH|].
+  apply Forall_forall. intros t Ht. unfold descR. apply flt_false_iff; try easy.
+  - now apply (numl_In r).
+  - now apply (proj1 (Forall_forall _ _) Fx).
+Qed.
+
+(** the number of tokens topK keeps *)
+Definition eff_k (n : nat) (k : Z) : nat :=
+  if (Z.of_nat n <=? k) || (k <=? 0) then n else Z.to_nat k.
+
+(** a legal result of topK: the first [eff_k] tokens of *some* descending arrangement of the input (the Go code's
+    pdqsort / heap produce one such arrangement; which one, among equal values, is not specified) *)
+Definition legal_topk (ts : list tok) (k : Z) (S : list tok) : Prop :=
+  exists L, Permutation L ts /\ StronglySorted desc L /\ S = firstn (eff_k (length ts) k) L.
+
+Lemma topK_legal : forall ts k, numl ts -> legal_topk ts k (topK ts k).
+Proof.
+  intros ts k H. exists (sort_desc ts). split; [apply sort_desc_perm|]. split.
+  - apply descR_desc; [|now apply sort_desc_sorted]. apply (numl_perm ts); [|easy]. symmetry; apply sort_desc_perm.
+  - unfold topK, eff_k. destruct ((Z.of_nat (length ts) <=? k) || (k <=? 0)); [|easy].
+    rewrite <- (Permutation_length (sort_desc_perm ts)). now rewrite firstn_all.
+Qed.
+
+Lemma legal_facts : forall ts k S, numl ts -> ts <> [] -> legal_topk ts k S ->
+  numl S /\ incl S ts /\ (length S <= length ts)%nat /\
+  exists h rest, S = h :: rest /\ forall t, In t ts -> (rk (tv t) <= rk (tv h))%R.
+Proof.
+  intros ts k S Hn Hne (L & P & Ss & ->).
+  assert (HL : numl L) by (apply (numl_perm ts); [now symmetry|easy]).
+  assert (Hk : (1 <= eff_k (length ts) k)%nat).
+  { unfold eff_k. destruct ts; [easy|]. cbn [length].
+    destruct ((Z.of_nat (S (length ts)) <=? k) || (k <=? 0)) eqn:X; [lia|].
+    apply orb_false_iff in X. lia. }
+  split; [now apply numl_firstn|]. split.
+  { intros t Ht. apply firstn_In in Ht. now apply (Permutation_in _ P). }
+  split. { rewrite firstn_length, (Permutation_length P). lia. }
+  destruct L as [|h L']. { apply Permutation_nil in P. now subst. }
+  exists h, (firstn (eff_k (length ts) k - 1) L'). split.
+  - destruct (eff_k (length ts) k); [lia|]. cbn. now rewrite Nat.sub_0_r.
+  - intros t Ht. apply (Permutation_in _ (Permutation_sym P)) in Ht.
+    apply desc_descR in Ss; [|easy]. inversion Ss as [|? ? _ Fh]; subst.
+    destruct Ht as [<-|Ht]; [lra|]. now apply (proj1 (Forall_forall _ _) Fh).
+Qed.
+
+(** tokens outside a legal topK result are not larger than any token inside *)
+Lemma legal_rest : forall ts k S, numl ts -> legal_topk ts k S ->
+  exists rest, Permutation (S ++ rest) ts /\ forall s t, In s S -> In t rest -> flt (tv s) (tv t) = false.
+Proof.
+  intros ts k S Hn (L & P & Ss & ->). generalize (eff_k (length ts) k). intros n.
+  exists (skipn n L). split; [now rewrite firstn_skipn|].
+  clear P Hn. revert n. induction L as [|x L IH]; intros n s t Hs Ht.
+  - now rewrite firstn_nil in Hs.
+  - destruct n; [easy|]. cbn in Hs, Ht. inversion Ss as [|? ? SL Fx]; subst. destruct Hs as [<-|Hs].
+    + apply (proj1 (Forall_forall _ _) Fx). now apply (skipn_In _ n).
+    + now apply (IH SL n).
+Qed.
+
+(** * slices.BinarySearchFunc: the invariant holds on any list, sorted or not *)
+Definition nthv (x : list tok) (i : nat) : sf := tv (nth i x (0, fnan)).
+
+Lemma bsearch_spec : forall fuel x target i j,
+  (i <= j <= length x)%nat -> (j - i < fuel)%nat ->
+  (i = 0%nat \/ flt (nthv x (i - 1)) target = true) ->
+  (j = length x \/ flt (nthv x j) target = false) ->
+  let k := bsearch fuel x target i j in
+  (i <= k <= j)%nat /\ (k = 0%nat \/ flt (nthv x (k - 1)) target = true) /\
+  (k = length x \/ flt (nthv x k) target = false).
+Proof.
+  induction fuel as [|f IH]; intros x target i j Hij Hf Hi Hj; [lia|].
+  cbn [bsearch]. destruct (i <? j)%nat eqn:L.
+  - apply Nat.ltb_lt in L.
+    assert (Hh : (i <= (i + j) / 2 < j)%nat).
+    { split; [apply Nat.div_le_lower_bound; lia|apply Nat.div_lt_upper_bound; lia]. }
+    set (h := ((i + j) / 2)%nat) in *.
+    fold (nthv x h). destruct (flt (nthv x h) target) eqn:F.
+    + destruct (IH x target (S h) j) as (K1 & K2 & K3); try lia; try easy.
+      { right. now replace (S h - 1)%nat with h by lia. }
+      repeat split; try easy; lia.
+    + destruct (IH x target i h) as (K1 & K2 & K3); try lia; try easy.
+      { now right. }
+      repeat split; try easy; lia.
+  - apply Nat.ltb_ge in L. assert (i = j) by lia. subst. repeat split; try easy; lia.
+Qed.
+
+(** * cumulative sums *)
+Lemma cumsum_length : forall l s, length (cumsum s l) = length l.
+Proof. induction l; intros; cbn; [easy|now rewrite IHl]. Qed.
+
+Lemma cumsum_nth0 : forall l s t, nth_error l 0 = Some t ->
+  nth_error (cumsum s l) 0 = Some (tid t, fadd s (tv t)).
+Proof. intros [|a r] s t H; [easy|]. cbn in *. now inversion H. Qed.
+
+Lemma cumsum_nthS : forall l s k a, nth_error (cumsum s l) k = Some a ->
+  forall t, nth_error l (S k) = Some t ->
+  nth_error (cumsum s l) (S k) = Some (tid t, fadd (tv a) (tv t)).
+Proof.
+  induction l as [|x r IH]; intros s k a Ha t Ht; [easy|].
+  cbn [cumsum] in *. destruct k.
+  - cbn in Ha. inversion Ha; subst. cbn [nth_error] in *. cbn [tv snd]. now apply cumsum_nth0.
+  - cbn [nth_error] in *. now apply (IH _ _ a).
+Qed.
+
+Lemma cumsum_tid : forall l s k a, nth_error (cumsum s l) k = Some a ->
+  exists t, nth_error l k = Some t /\ tid a = tid t.
+Proof.
+  induction l as [|x r IH]; intros s k a Ha; [now destruct k|].
+  cbn [cumsum] in Ha. destruct k.
+  - cbn in Ha. inversion Ha; subst. exists x. now split.
+  - cbn [nth_error] in *. exact (IH _ _ _ Ha).
+Qed.
+
+Definition nonneg (t : tok) : Prop := num (tv t) /\ (0 <= rk (tv t))%R.
+
+Lemma cumsum_nonneg : forall l s, num s -> (0 <= rk s)%R -> Forall nonneg l -> Forall nonneg (cumsum s l).
+Proof.
+  induction l as [|x r IH]; intros s Hs Ps Hl; [constructor|]. inversion Hl as [|? ? [Hx Px] Hr]; subst.
+  cbn [cumsum]. destruct (fadd_nonneg s (tv x) Hs Hx Ps Px) as (A1 & A2 & A3).
+  constructor; [split; [easy|cbn [tv snd]; lra]|]. apply IH; try easy. lra.
+Qed.
+
+Lemma last_nth_error : forall (l : list tok) d, l <> [] -> nth_error l (length l - 1) = Some (last l d).
+Proof.
+  induction l as [|x r IH]; intros d H; [easy|]. destruct r as [|y r'].
+  - reflexivity.
+  - cbn [length]. replace (S (S (length r')) - 1)%nat with (S (length (y :: r') - 1)) by (cbn; lia).
+    cbn [nth_error]. rewrite (IH d); easy.
+Qed.
+
+(** * folds of the softmax *)
+Lemma max_fold : forall l acc, num acc -> numl l ->
+  let m := fold_left (fun m t => if fgt (tv t) m then tv t else m) l acc in
+  num m /\ (rk acc <= rk m)%R /\ (forall t, In t l -> (rk (tv t) <= rk m)%R) /\
+  (m = acc \/ exists t, In t l /\ tv t = m).
+Proof.
+  induction l as [|x r IH]; intros acc Ha Hl; cbn [fold_left].
+  - split; [easy|]. split; [lra|]. split; [intros t []|now left].
+  - inversion Hl as [|? ? Hx Hr]; subst.
+    set (acc' := if fgt (tv x) acc then tv x else acc).
+    assert (Ha' : num acc') by (unfold acc'; now destruct (fgt (tv x) acc)).
+    assert (Ge : (rk acc <= rk acc')%R /\ (rk (tv x) <= rk acc')%R /\ (acc' = acc \/ acc' = tv x)).
+    { unfold acc', fgt. destruct (flt acc (tv x)) eqn:F.
+      - apply flt_true_iff in F; try easy. repeat split; try lra. now right.
+      - apply flt_false_iff in F; try easy. repeat split; try lra. now left. }
+    destruct (IH acc' Ha' Hr) as (I1 & I2 & I3 & I4).
+    split; [easy|]. split; [lra|]. split.
+    + intros t [<-|Ht]; [lra|now apply I3].
+    + destruct I4 as [I4|(t & T1 & T2)].
+      * destruct Ge as (_ & _ & [G|G]); [left; congruence|right; exists x; split; [now left|congruence]].
+      * right. exists t. split; [now right|easy].
+Qed.
+
+Lemma sum_fold : forall l acc, num acc -> (0 <= rk acc)%R -> Forall nonneg l ->
+  let s := fold_left (fun s t => fadd s (tv t)) l acc in
+  num s /\ (rk acc <= rk s)%R /\ forall t, In t l -> (rk (tv t) <= rk s)%R.
+Proof.
+  induction l as [|x r IH]; intros acc Ha Pa Hl; cbn [fold_left].
+  - split; [easy|]. split; [lra|]. intros t [].
+  - inversion Hl as [|? ? [Hx Px] Hr]; subst.
+    destruct (fadd_nonneg acc (tv x) Ha Hx Pa Px) as (A1 & A2 & A3).
+    destruct (IH (fadd acc (tv x)) A1 ltac:(lra) Hr) as (I1 & I2 & I3).
+    split; [easy|]. split; [lra|]. intros t [<-|Ht]; [lra|now apply I3].
+Qed.
+
+(** * topP / minP cuts *)
+Lemma topP_cut_pos : forall l p s, l <> [] -> (1 <= topP_cut p s l <= length l)%nat.
+Proof.
+  induction l as [|x r IH]; intros p s H; [easy|]. cbn [topP_cut length].
+  destruct (fgt (fadd s (tv x)) p); [lia|]. destruct r; [cbn; lia|].
+  specialize (IH p (fadd s (tv x)) ltac:(easy)). lia.
+Qed.
+
+Lemma minP_cut_le : forall l thr, (minP_cut thr l <= length l)%nat.
+Proof. induction l; intros; cbn; [lia|]. destruct (flt (tv a) thr); [lia|]. specialize (IHl thr). lia. Qed.
+
+Lemma minP_cut_kept : forall l thr j, (j < minP_cut thr l)%nat -> flt (nthv l j) thr = false.
+Proof.
+  induction l as [|x r IH]; intros thr j H; [cbn in H; lia|].
+  cbn [minP_cut] in H. destruct (flt (tv x) thr) eqn:F; [lia|].
+  destruct j; [exact F|]. unfold nthv. cbn [nth]. apply IH. lia.
+Qed.
+
+(** partial sums as topP computes them: the sum of the first j+1 values, starting from s *)
+Fixpoint psum (s : sf) (l : list tok) (j : nat) : sf :=
+  match l with
+  | [] => s
+  | t :: r => match j with O => fadd s (tv t) | S j' => psum (fadd s (tv t)) r j' end
+  end.
+
+Lemma topP_cut_before : forall l p s j, (S j < topP_cut p s l)%nat -> fgt (psum s l j) p = false.
+Proof.
+  induction l as [|x r IH]; intros p s j H; [cbn in H; lia|].
+  cbn [topP_cut] in H. destruct (fgt (fadd s (tv x)) p) eqn:F; [lia|].
+  destruct j; [exact F|]. cbn [psum]. apply IH. lia.
+Qed.
+
+(** * The pipeline after topK *)
+Section Sampler.
+Variable E : sf -> sf.
+(** the hypotheses on the exp oracle  x |-> float32(math.Exp(float64(x)))  (tested on every run, props/c18.py) *)
+Hypothesis E_range : forall x, num x -> (rk x <= 0)%R -> num (E x) /\ (0 <= rk (E x) <= 1)%R.
+Hypothesis E_zero : forall x, is_zero x = true -> E x = fone.
+Hypothesis E_ninf : is_zero (E ninf) = true.
+
+Definition scaled (T : sf) (S : list tok) : list tok := map (fun x => (tid x, scale T (tv x))) S.
+
+Lemma scaled_numl : forall T S, num T -> is_inf T = false -> (0 < rk T)%R -> numl S -> numl (scaled T S).
+Proof.
+  intros T S HT FT PT HS. apply Forall_forall. intros t Ht. apply in_map_iff in Ht. destruct Ht as (x & <- & Hx).
+  cbn [tv snd]. apply scale_num; try easy. now apply (numl_In S).
+Qed.
+
+(** softmax o temperature is a value-wise map; what the resulting probabilities satisfy *)
+Lemma softmax_scaled : forall T S, num T -> is_inf T = false -> (0 < rk T)%R -> numl S ->
+  (exists t, In t S /\ tv t <> ninf) ->
+  exists PV : sf -> sf,
+    softmax E (scaled T S) = map (fun t => (tid t, PV (tv t))) S /\
+    forall t, In t S -> num (PV (tv t)) /\ (0 <= rk (PV (tv t)))%R /\ (tv t = ninf -> is_zero (PV (tv t)) = true).
+Proof.
+  intros T S HT FT PT HS (w & Hw & Nw).
+  set (sc := scaled T S). set (mx := max_logit sc).
+  set (es := map (fun t => (tid t, E (sm_diff mx (tv t)))) sc).
+  set (sum := fold_left (fun s t => fadd s (tv t)) es fzero).
+  exists (fun v => fdiv (E (sm_diff mx (scale T v))) sum). split.
+  { unfold softmax. fold sc. fold mx. fold es. fold sum. unfold es, sc, scaled. rewrite !map_map. apply map_ext. now intros [i v]. }
+  assert (Hsc : numl sc) by now apply scaled_numl.
+  destruct (max_fold sc ninf num_ninf Hsc) as (M1 & M2 & M3 & M4). fold (max_logit sc) in M1, M2, M3, M4. fold mx in M1, M2, M3, M4.
+  assert (G0 := BIG_pos).
+  (* the maximum is not -Inf *)
+  assert (Mn : mx <> ninf).
+  { intros X. assert (Hsw : In (tid w, scale T (tv w)) sc) by (apply in_map_iff; now exists w).
+    apply M3 in Hsw. cbn [tv snd] in Hsw. rewrite X, rk_ninf in Hsw.
+    destruct (scale_num T (tv w) HT FT PT (numl_In S w HS Hw)) as (S1 & S2 & S3 & S4).
+    assert (Q := rk_range _ S1). assert (rk (scale T (tv w)) = (- BIG)%R) by lra.
+    apply (rk_ninf_iff _ S1) in H.
+    destruct (tv w) as [s|[|]| |s m e] eqn:Ew; try easy.
+    - specialize (S4 eq_refl). now rewrite H in S4.
+    - specialize (S3 eq_refl). now rewrite H in S3.
+    - specialize (S4 eq_refl). now rewrite H in S4. }
+  (* the differences are numbers <= 0 *)
+  assert (Hd : forall v, num v -> (rk v <= rk mx)%R -> num (sm_diff mx v) /\ (rk (sm_diff mx v) <= 0)%R).
+  { intros v Hv Le. unfold sm_diff. destruct (is_pinf v) eqn:Pv.
+    - split; [apply num_fzero|rewrite rk_fzero; lra].
+    - destruct (is_pinf mx) eqn:Pm.
+      + assert (mx = pinf) by (destruct mx as [s|[|]| |s m e]; easy). subst mx. rewrite H.
+        rewrite fsub_pinf_r; [|apply Hv|easy]. split; [apply num_ninf|rewrite rk_ninf; lra].
+      + apply fsub_le; try easy. destruct mx as [s|[|]| |s m e]; easy. }
+  (* the exponentials are in [0,1] *)
+  assert (He : Forall nonneg es).
+  { apply Forall_forall. intros t Ht. apply in_map_iff in Ht. destruct Ht as (x & <- & Hx).
+    cbn [tv snd]. destruct (Hd (tv x) (numl_In sc x Hsc Hx) (M3 x Hx)) as (D1 & D2).
+    destruct (E_range _ D1 D2) as (E1 & E2). split; cbn [tv snd]; [easy|lra]. }
+  (* one of them is 1, so the sum is positive *)
+  destruct (sum_fold es fzero num_fzero ltac:(rewrite rk_fzero; lra) He) as (U1 & U2 & U3). fold sum in U1, U2, U3.
+  assert (Ps : (1 <= rk sum)%R).
+  { destruct M4 as [M4|(t & T1 & T2)]; [easy|].
+    assert (In (tid t, E (sm_diff mx (tv t))) es) by (apply in_map_iff; now exists t).
+    apply U3 in H. cbn [tv snd] in H. rewrite T2 in H.
+    assert (is_zero (sm_diff mx mx) = true).
+    { unfold sm_diff. destruct (is_pinf mx) eqn:Pm; [easy|]. apply fsub_self; [apply M1|]. destruct mx as [s|[|]| |s m e]; easy. }
+    rewrite (E_zero _ H0), rk_fone in H. exact H. }
+  intros t Ht.
+  assert (Hst : In (tid t, scale T (tv t)) sc) by (apply in_map_iff; now exists t).
+  destruct (Hd (scale T (tv t)) (numl_In sc _ Hsc Hst) (M3 _ Hst)) as (D1 & D2).
+  destruct (E_range _ D1 D2) as (E1 & E2).
+  destruct (fdiv_prob _ sum E1 U1 E2 ltac:(lra)) as (F1 & F2 & F3).
+  split; [easy|]. split; [easy|]. intros Nt. apply F3.
+  destruct (scale_num T (tv t) HT FT PT (numl_In S t HS Ht)) as (_ & S2 & _). rewrite Nt in *. rewrite (S2 eq_refl).
+  unfold sm_diff. cbn [is_pinf ninf]. rewrite fsub_ninf_l; [exact E_ninf|apply M1|]. destruct mx as [s|[|]| |s m e]; easy.
+Qed.
+
+Lemma nth_firstn_lt : forall (l : list tok) n j d, (j < n)%nat -> nth j (firstn n l) d = nth j l d.
+Proof.
+  induction l as [|x r IH]; intros n j d H; [now rewrite firstn_nil|].
+  destruct n; [lia|]. cbn [firstn]. destruct j; [easy|]. cbn [nth]. apply IH. lia.
+Qed.
+
+Lemma nth_error_firstn_lt : forall (l : list tok) n j t, nth_error (firstn n l) j = Some t -> (j < n)%nat /\ nth_error l j = Some t.
+Proof.
+  induction l as [|x r IH]; intros n j t H; [rewrite firstn_nil in H; now destruct j|].
+  destruct n; [now destruct j|]. cbn [firstn] in H. destruct j; [split; [lia|easy]|].
+  cbn [nth_error] in *. apply IH in H. split; [lia|easy].
+Qed.
+
+Lemma Forall_firstn : forall (P : tok -> Prop) n l, Forall P l -> Forall P (firstn n l).
+Proof. intros P n l H. apply Forall_forall. intros t Ht. apply firstn_In in Ht. exact (proj1 (Forall_forall _ _) H t Ht). Qed.
+
+(** topP then minP keep a non-empty prefix [firstn c]; what holds for every kept position *)
+Lemma filters_spec : forall probs p mp, probs <> [] -> Forall nonneg probs -> num mp -> (0 <= rk mp <= 1)%R ->
+  exists c, (1 <= c <= length probs)%nat /\ minP (topP probs p) mp = Some (firstn c probs) /\
+    (forall j, (j < c)%nat -> flt (nthv probs j) (fmul (nthv probs 0) mp) = false) /\
+    (feq p fone = false -> forall j, (S j < c)%nat -> fgt (psum fzero probs j) p = false).
+Proof.
+  intros probs p mp Hne Hnn Hmp Pmp.
+  remember (if feq p fone then length probs else topP_cut p fzero probs) as c1 eqn:Ec1.
+  assert (Hc1 : (1 <= c1 <= length probs)%nat).
+  { subst c1. destruct (feq p fone); [destruct probs; [easy|cbn; lia]|now apply topP_cut_pos]. }
+  assert (Ht : topP probs p = firstn c1 probs).
+  { unfold topP. subst c1. destruct (feq p fone); [now rewrite firstn_all|easy]. }
+  destruct probs as [|t0 rest]; [easy|]. destruct c1 as [|c1']; [lia|].
+  set (thr := fmul (tv t0) mp).
+  assert (F0 : flt (tv t0) thr = false).
+  { inversion Hnn as [|? ? [N0 P0] _]; subst.
+    destruct (fmul_unit_r mp (tv t0) Hmp N0 Pmp P0) as [Fa Fb]. fold thr in Fa, Fb.
+    destruct (is_nan thr) eqn:Nn; [now apply flt_nan_r|]. destruct (Fb eq_refl) as (Fb1 & Fb2).
+    apply flt_false_iff; try easy; lra. }
+  set (kept := firstn (S c1') (t0 :: rest)) in *.
+  set (c2 := minP_cut thr kept).
+  assert (Hc2 : (1 <= c2 <= S c1')%nat).
+  { unfold c2. split.
+    - unfold kept. cbn [firstn minP_cut]. rewrite F0. lia.
+    - etransitivity; [apply minP_cut_le|]. unfold kept. rewrite firstn_length. lia. }
+  exists c2. split; [lia|]. split.
+  { rewrite Ht. fold kept. unfold minP. unfold kept at 1. cbn [firstn]. fold thr.
+    change (t0 :: firstn c1' rest) with kept. fold c2. unfold kept. rewrite firstn_firstn. f_equal. f_equal. lia. }
+  split.
+  - intros j Hj. change (nthv (t0 :: rest) 0) with (tv t0). fold thr.
+    assert (X := minP_cut_kept kept thr j Hj). unfold nthv in *. unfold kept in X. rewrite nth_firstn_lt in X by lia. exact X.
+  - intros Fp j Hj. rewrite Fp in Ec1. apply topP_cut_before. rewrite <- Ec1. lia.
+Qed.
+
+(** the tail of sample(): on a non-empty list of non-negative numbers a token is returned (no NaN error, no index
+    out of range), and unless it is the first one its own value is not a zero *)
+Lemma pick_spec : forall ts r, ts <> [] -> Forall nonneg ts -> num r -> (0 <= rk r <= 1)%R ->
+  exists k a t, nth_error ts k = Some t /\ pick ts r = Tok a /\ tid a = tid t /\
+    (k = 0%nat \/ is_zero (tv t) = false).
+Proof.
+  intros ts r Hne Hnn Hr Pr.
+  set (cs := cumsum fzero ts).
+  assert (Hcs : Forall nonneg cs) by (apply cumsum_nonneg; [apply num_fzero|rewrite rk_fzero; lra|easy]).
+  assert (Hlen : length cs = length ts) by apply cumsum_length.
+  assert (Hn : (1 <= length cs)%nat) by (rewrite Hlen; destruct ts; [easy|cbn; lia]).
+  assert (Hcne : cs <> []) by (destruct cs; [cbn in Hn; lia|easy]).
+  set (total := tv (last cs (0, fnan))).
+  assert (Hl := last_nth_error cs (0, fnan) Hcne).
+  assert (Htot : nonneg (last cs (0, fnan))) by (apply nth_error_In in Hl; exact (proj1 (Forall_forall _ _) Hcs _ Hl)).
+  destruct Htot as [Nt Pt]. fold total in Nt, Pt.
+  set (r' := fmul r total).
+  destruct (fmul_unit_l r total Hr Nt Pr Pt) as [Ra Rb]. fold r' in Ra, Rb.
+  destruct (bsearch_spec (S (length cs)) cs r' 0 (length cs) ltac:(lia) ltac:(lia) (or_introl eq_refl) (or_introl eq_refl)) as (K1 & K2 & K3).
+  set (k := bsearch (S (length cs)) cs r' 0 (length cs)) in *.
+  assert (Hk : (k < length cs)%nat).
+  { destruct (Nat.eq_dec k (length cs)) as [Ek|]; [|lia]. exfalso.
+    destruct K2 as [K2|K2]; [lia|]. rewrite Ek in K2. unfold nthv in K2.
+    rewrite (nth_error_nth _ _ _ Hl) in K2. fold total in K2.
+    destruct (is_nan r') eqn:Nr; [rewrite flt_nan_r in K2; easy|].
+    destruct (Rb eq_refl) as (Rb1 & Rb2). apply flt_true_iff in K2; try easy. lra. }
+  destruct (nth_error cs k) as [a|] eqn:Ea; [|apply nth_error_None in Ea; lia].
+  destruct (cumsum_tid ts fzero k a Ea) as (t & Tt & Ti).
+  exists k, a, t. split; [easy|]. split.
+  { unfold pick. destruct ts; [easy|]. fold cs. fold total. fold r'. fold k. destruct Nt as [_ Nt]. now rewrite Nt, Ea. }
+  split; [easy|].
+  destruct k as [|k']; [now left|right].
+  destruct K2 as [K2|K2]; [lia|]. destruct K3 as [K3|K3]; [lia|].
+  replace (S k' - 1)%nat with k' in K2 by lia.
+  destruct (nth_error cs k') as [a'|] eqn:Ea'; [|apply nth_error_None in Ea'; lia].
+  assert (Ea2 := cumsum_nthS ts fzero k' a' Ea' t Tt). fold cs in Ea2. rewrite Ea in Ea2. inversion Ea2; subst a.
+  unfold nthv in K2, K3. rewrite (nth_error_nth _ _ _ Ea') in K2. rewrite (nth_error_nth _ _ _ Ea) in K3. cbn [tv snd] in K3.
+  destruct (is_zero (tv t)) eqn:Z; [exfalso|easy].
+  assert (Na' : num (tv a')) by (apply nth_error_In in Ea'; exact (proj1 (proj1 (Forall_forall _ _) Hcs _ Ea'))).
+  destruct (fadd_zero_r (tv a') (tv t) Na' Z) as (Z1 & Z2).
+  destruct (is_nan r') eqn:Nr; [rewrite flt_nan_r in K2; easy|].
+  destruct (Rb eq_refl) as (Rb1 & Rb2).
+  apply flt_true_iff in K2; try easy. apply flt_false_iff in K3; try easy. lra.
+Qed.
+
+(** ** everything after topK: a token is returned; it is one of the tokens of the list, inside the prefix kept by
+    topP and minP, and - unless it is the first, i.e. a maximal, token - its logit is not -Inf *)
+Theorem after_topk_spec : forall pr S r,
+  num (eff_temp (p_temp pr)) -> is_inf (eff_temp (p_temp pr)) = false -> (0 < rk (eff_temp (p_temp pr)))%R ->
+  num (p_minp pr) -> (0 <= rk (p_minp pr) <= 1)%R ->
+  numl S -> (exists t, In t S /\ tv t <> ninf) -> num r -> (0 <= rk r <= 1)%R ->
+  let probs := softmax E (temperature S (p_temp pr)) in
+  exists k t a, nth_error S k = Some t /\ after_topk E pr S r = Tok a /\ tid a = tid t /\
+    (k = 0%nat \/ tv t <> ninf) /\
+    flt (nthv probs k) (fmul (nthv probs 0) (p_minp pr)) = false /\
+    (feq (p_topp pr) fone = false -> forall j, (j < k)%nat -> fgt (psum fzero probs j) (p_topp pr) = false).
+Proof.
+  intros pr S r HT FT PT Hmp Pmp HS Hw Hr Pr probs.
+  assert (Et : temperature S (p_temp pr) = scaled (eff_temp (p_temp pr)) S) by reflexivity.
+  destruct (softmax_scaled _ S HT FT PT HS Hw) as (PV & Eq & HPV).
+  assert (Ep : probs = map (fun t => (tid t, PV (tv t))) S) by (unfold probs; now rewrite Et).
+  assert (Hne : S <> []) by (destruct Hw as (w & Hw & _); now destruct S).
+  assert (Hpne : probs <> []) by (rewrite Ep; destruct S; easy).
+  assert (Hnn : Forall nonneg probs).
+  { rewrite Ep. apply Forall_forall. intros x Hx. apply in_map_iff in Hx. destruct Hx as (t & <- & Ht).
+    destruct (HPV t Ht) as (P1 & P2 & _). now split. }
+  destruct (filters_spec probs (p_topp pr) (p_minp pr) Hpne Hnn Hmp Pmp) as (c & Hc & Ef & Fa & Fb).
+  assert (Hkne : firstn c probs <> []) by (destruct probs; [easy|]; destruct c; [lia|easy]).
+  destruct (pick_spec (firstn c probs) r Hkne (Forall_firstn _ _ _ Hnn) Hr Pr) as (k & a & t' & Tk & Pk & Ti & Kz).
+  apply nth_error_firstn_lt in Tk. destruct Tk as [Kc Tk].
+  rewrite Ep in Tk. rewrite nth_error_map in Tk. destruct (nth_error S k) as [t|] eqn:Es; [|easy].
+  cbn in Tk. inversion Tk; subst t'. clear Tk.
+  exists k, t, a. split; [easy|]. split.
+  { unfold after_topk. fold probs. now rewrite Ef. }
+  split; [easy|]. split.
+  { destruct Kz as [Kz|Kz]; [now left|right]. intros X. cbn [tv snd] in Kz.
+    destruct (HPV t (nth_error_In _ _ Es)) as (_ & _ & P3). now rewrite (P3 X) in Kz. }
+  split; [now apply Fa|]. intros Fp j Hj. apply (Fb Fp). lia.
+Qed.
+
+
+(** * sample / Sample *)
+(** the parameters the theorems speak about: numbers, the temperature not infinite *)
+Definition params_ok (temp topp minp : sf) : Prop := num temp /\ is_inf temp = false /\ num topp /\ num minp.
+(** a draw of rng.Float32(): a number in [0,1] *)
+Definition draw_ok (r : sf) : Prop := num r /\ (0 <= rk r <= 1)%R.
+
+Lemma new_sampler_facts : forall temp k topp minp, params_ok temp topp minp ->
+  let pr := new_sampler temp k topp minp in
+  num (p_minp pr) /\ (0 <= rk (p_minp pr) <= 1)%R /\
+  (feq (p_temp pr) fzero = false ->
+     num (eff_temp (p_temp pr)) /\ is_inf (eff_temp (p_temp pr)) = false /\ (0 < rk (eff_temp (p_temp pr)))%R).
+Proof.
+  intros temp k topp minp (Ht & Ft & Hp & Hm). cbn [new_sampler p_minp p_temp].
+  destruct (clamp01_unit minp Hm) as (C1 & C2). split; [easy|]. split; [easy|].
+  intros Fz. destruct (clamp_temp_pos temp Ht Ft) as (T1 & T2 & T3). now apply eff_temp_num; [| |apply T3].
+Qed.
+
+Lemma not_ninf_rk : forall x, num x -> x <> ninf -> (- BIG < rk x)%R.
+Proof.
+  intros x Hx Nx. assert (Q := rk_range x Hx). destruct (Req_dec (rk x) (- BIG)) as [X|X]; [|lra].
+  apply (rk_ninf_iff x Hx) in X. easy.
+Qed.
+
+Lemma rk_gt_not_ninf : forall x, (- BIG < rk x)%R -> x <> ninf.
+Proof. intros x H X. subst. rewrite rk_ninf in H. lra. Qed.
+
+(** ** the weighted path on any legal topK result *)
+Theorem after_topk_legal : forall temp k topp minp logits r S,
+  params_ok temp topp minp -> draw_ok r -> Forall num logits ->
+  (exists x, In x logits /\ x <> ninf) ->
+  let pr := new_sampler temp k topp minp in
+  feq (p_temp pr) fzero = false ->
+  legal_topk (enumerate 0 logits) k S ->
+  let probs := softmax E (temperature S (p_temp pr)) in
+  exists i t a, nth_error S i = Some t /\ after_topk E pr S r = Tok a /\ tid a = tid t /\
+    (* inside the vocabulary, and the logit of the returned id is the token's value, not -Inf *)
+    0 <= tid a < Z.of_nat (length logits) /\ nth_error logits (Z.to_nat (tid a)) = Some (tv t) /\ tv t <> ninf /\
+    (* inside the min-p set and the top-p prefix computed on S *)
+    flt (nthv probs i) (fmul (nthv probs 0) (p_minp pr)) = false /\
+    (feq (p_topp pr) fone = false -> forall j, (j < i)%nat -> fgt (psum fzero probs j) (p_topp pr) = false).
+Proof.
+  intros temp k topp minp logits r S Hp (Hr & Pr) Hl (x & Hx & Nx) pr Fz HS probs.
+  destruct (new_sampler_facts temp k topp minp Hp) as (M1 & M2 & M3). fold pr in M1, M2, M3.
+  destruct (M3 Fz) as (T1 & T2 & T3).
+  set (ts := enumerate 0 logits) in *.
+  assert (Hts : numl ts) by now apply enumerate_numl.
+  assert (Hne : ts <> []) by (unfold ts; destruct logits; [easy|easy]).
+  destruct (legal_facts ts k S Hts Hne HS) as (L1 & L2 & L3 & h & rest & ES & Hh).
+  destruct (enumerate_vals logits 0 x Hx) as (tx & Tx1 & Tx2). fold ts in Tx1.
+  assert (Nh : tv h <> ninf).
+  { apply rk_gt_not_ninf. assert (A := Hh tx Tx1). rewrite Tx2 in A.
+    assert (B := not_ninf_rk x (proj1 (Forall_forall _ _) Hl x Hx) Nx). lra. }
+  assert (Hw : exists t, In t S /\ tv t <> ninf) by (exists h; split; [rewrite ES; now left|easy]).
+  destruct (after_topk_spec pr S r T1 T2 T3 M1 M2 L1 Hw Hr Pr) as (i & t & a & A1 & A2 & A3 & A4 & A5 & A6).
+  exists i, t, a. split; [easy|]. split; [easy|]. split; [easy|].
+  assert (It : In t ts) by (apply L2; now apply nth_error_In in A1).
+  destruct (enumerate_In logits 0 t It) as (R1 & R2). rewrite Z.sub_0_r in R2.
+  split; [rewrite A3; lia|]. split; [now rewrite A3|]. split.
+  { destruct A4 as [A4|A4]; [|easy]. subst i. rewrite ES in A1. cbn in A1. now inversion A1; subst. }
+  split; [easy|easy].
+Qed.
+
+(** ** Sample: a token, inside the vocabulary, whose logit is not -Inf, whenever some logit is not -Inf *)
+Theorem Sample_admissible : forall temp k topp minp logits r,
+  params_ok temp topp minp -> draw_ok r -> Forall num logits ->
+  (exists x, In x logits /\ x <> ninf) ->
+  exists a v, Sample E (new_sampler temp k topp minp) logits r = Tok a /\
+    0 <= tid a < Z.of_nat (length logits) /\ nth_error logits (Z.to_nat (tid a)) = Some v /\ v <> ninf.
+Proof.
+  intros temp k topp minp logits r Hp Hr Hl (x & Hx & Nx).
+  set (pr := new_sampler temp k topp minp).
+  unfold Sample. destruct logits as [|l0 lr]; [easy|]. cbv beta iota. set (logits := l0 :: lr) in *.
+  set (ts := enumerate 0 logits).
+  assert (Hts : numl ts) by now apply enumerate_numl.
+  unfold sample. destruct ts as [|t0 trest] eqn:Ets. { easy. }
+  destruct (feq (p_temp pr) fzero) eqn:Fz.
+  - inversion Hts as [|? ? H0 Hrest]; subst.
+    destruct (greedy_from_max trest t0 H0 Hrest) as (G1 & G2 & G3 & G4).
+    set (g := greedy_from t0 trest) in *. rewrite <- Ets in G1.
+    destruct (enumerate_In logits 0 g G1) as (R1 & R2). rewrite Z.sub_0_r in R2.
+    exists g, (tv g). split; [easy|]. split; [lia|]. split; [easy|].
+    destruct (enumerate_vals logits 0 x Hx) as (tx & Tx1 & Tx2). fold ts in Tx1. rewrite Ets in Tx1.
+    apply rk_gt_not_ninf.
+    assert (B := not_ninf_rk x (proj1 (Forall_forall _ _) Hl x Hx) Nx).
+    destruct Tx1 as [<-|Tx1]; [rewrite Tx2 in G3; lra|]. apply G4 in Tx1. rewrite Tx2 in Tx1. lra.
+  - rewrite <- Ets.
+    destruct (after_topk_legal temp k topp minp logits r (topK ts (p_topk pr)) Hp Hr Hl (ex_intro _ x (conj Hx Nx)) Fz)
+      as (i & t & a & A1 & A2 & A3 & A4 & A5 & A6 & _).
+    { apply topK_legal. fold ts. now rewrite Ets. }
+    exists a, (tv t). fold pr in A2. fold ts in A2. now repeat split.
+Qed.
+
+(** ** temperature zero: a highest-logit token *)
+Theorem Sample_greedy : forall temp k topp minp logits r,
+  Forall num logits -> logits <> [] ->
+  feq (p_temp (new_sampler temp k topp minp)) fzero = true ->
+  exists a, Sample E (new_sampler temp k topp minp) logits r = Tok a /\
+    0 <= tid a < Z.of_nat (length logits) /\ nth_error logits (Z.to_nat (tid a)) = Some (tv a) /\
+    forall x, In x logits -> flt (tv a) x = false.
+Proof.
+  intros temp k topp minp logits r Hl Hne Fz.
+  unfold Sample. destruct logits as [|l0 lr]; [easy|]. cbv beta iota. set (logits := l0 :: lr) in *.
+  set (ts := enumerate 0 logits).
+  assert (Hts : numl ts) by now apply enumerate_numl.
+  unfold sample. destruct ts as [|t0 trest] eqn:Ets. { easy. }
+  rewrite Fz. inversion Hts as [|? ? H0 Hrest]; subst.
+  destruct (greedy_from_max trest t0 H0 Hrest) as (G1 & G2 & G3 & G4).
+  set (g := greedy_from t0 trest) in *. rewrite <- Ets in G1.
+  destruct (enumerate_In logits 0 g G1) as (R1 & R2). rewrite Z.sub_0_r in R2.
+  exists g. split; [easy|]. split; [lia|]. split; [easy|].
+  intros x Hx. destruct (enumerate_vals logits 0 x Hx) as (tx & Tx1 & Tx2). fold ts in Tx1. rewrite Ets in Tx1.
+  apply flt_false_iff; [easy|exact (proj1 (Forall_forall _ _) Hl x Hx)|].
+  destruct Tx1 as [<-|Tx1]; [now rewrite <- Tx2|]. apply G4 in Tx1. now rewrite Tx2 in Tx1.
+Qed.
+
+(** ** all logits -Inf (everything masked): the NaN guard reports an error, nothing panics *)
+Hypothesis E_nan : is_nan (E fnan) = true.
+
+Lemma flt_nan_l : forall a b, is_nan a = true -> flt a b = false.
+Proof. intros [s|s| |s m e] b H; try easy. Qed.
+Lemma fadd_nan_r : forall x y, is_nan y = true -> is_nan (fadd x y) = true.
+Proof. intros x [s|s| |s m e] H; try easy. now destruct x. Qed.
+Lemma fdiv_nan_r : forall x y, is_nan y = true -> is_nan (fdiv x y) = true.
+Proof. intros x [s|s| |s m e] H; try easy. now destruct x. Qed.
+
+Definition alln (l : list tok) : Prop := Forall (fun t => is_nan (tv t) = true) l.
+
+Lemma cumsum_alln : forall l s, alln l -> alln (cumsum s l).
+Proof.
+  induction l as [|x r IH]; intros s H; [constructor|]. inversion H; subst. cbn [cumsum].
+  constructor; [cbn [tv snd]; now apply fadd_nan_r|now apply IH].
+Qed.
+
+Lemma pick_alln : forall ts r, ts <> [] -> alln ts -> pick ts r = ErrNaN.
+Proof.
+  intros ts r Hne H. unfold pick. destruct ts as [|t0 rest] eqn:Ets; [easy|]. rewrite <- Ets in *.
+  set (cs := cumsum fzero ts).
+  assert (Hcs : alln cs) by now apply cumsum_alln.
+  assert (Hcne : cs <> []) by (unfold cs; rewrite Ets; easy).
+  assert (Hl := last_nth_error cs (0, fnan) Hcne). apply nth_error_In in Hl.
+  now rewrite (proj1 (Forall_forall _ _) Hcs _ Hl).
+Qed.
+
+Lemma filters_alln : forall probs p mp r, probs <> [] -> alln probs ->
+  match minP (topP probs p) mp with Some ts' => pick ts' r = ErrNaN | None => False end.
+Proof.
+  intros probs p mp r Hne H.
+  assert (Ht : exists c1, (1 <= c1)%nat /\ topP probs p = firstn c1 probs).
+  { unfold topP. destruct (feq p fone).
+    - exists (length probs). split; [destruct probs; [easy|cbn; lia]|now rewrite firstn_all].
+    - exists (topP_cut p fzero probs). split; [now apply topP_cut_pos|easy]. }
+  destruct Ht as (c1 & Hc1 & ->). destruct probs as [|t0 rest]; [easy|]. destruct c1 as [|c1']; [lia|].
+  cbn [firstn minP]. set (kept := t0 :: firstn c1' rest). set (thr := fmul (tv t0) mp).
+  assert (Hk : alln kept) by (inversion H; subst; constructor; [easy|now apply Forall_firstn]).
+  apply pick_alln.
+  - unfold kept. cbn [minP_cut]. inversion H; subst. now rewrite flt_nan_l.
+  - now apply Forall_firstn.
+Qed.
+
+Lemma max_logit_all_ninf : forall l, Forall (fun t => tv t = ninf) l -> max_logit l = ninf.
+Proof.
+  unfold max_logit. induction l as [|x r IH]; intros H; [easy|]. inversion H as [|? ? Hx Hr]; subst.
+  cbn [fold_left]. rewrite Hx. cbn. now apply IH.
+Qed.
+
+Theorem after_topk_all_masked : forall pr S r,
+  num (eff_temp (p_temp pr)) -> is_inf (eff_temp (p_temp pr)) = false -> (0 < rk (eff_temp (p_temp pr)))%R ->
+  S <> [] -> Forall (fun t => tv t = ninf) S -> after_topk E pr S r = ErrNaN.
+Proof.
+  intros pr S r HT FT PT Hne Hall. unfold after_topk.
+  set (T := eff_temp (p_temp pr)) in *.
+  assert (Hsc : Forall (fun t => tv t = ninf) (temperature S (p_temp pr))).
+  { unfold temperature. fold T. apply Forall_forall. intros t Ht. apply in_map_iff in Ht. destruct Ht as (x & <- & Hx).
+    cbn [tv snd]. rewrite (proj1 (Forall_forall _ _) Hall x Hx). now apply scale_num; [| | |apply num_ninf|]. }
+  set (sc := temperature S (p_temp pr)) in *.
+  assert (Hsne : sc <> []) by (unfold sc, temperature; destruct S; easy).
+  assert (Hp : alln (softmax E sc)).
+  { unfold softmax. rewrite (max_logit_all_ninf sc Hsc).
+    apply Forall_forall. intros t Ht. apply in_map_iff in Ht. destruct Ht as (x & <- & Hx). cbn [tv snd].
+    apply fdiv_nan_r.
+    destruct sc as [|s0 srest]; [easy|]. cbn [map fold_left]. inversion Hsc as [|? ? H0 _]; subst.
+    rewrite H0. change (sm_diff ninf ninf) with fnan.
+    generalize (map (fun t => (tid t, E (sm_diff ninf (tv t)))) srest).
+    assert (N0 : is_nan (fadd fzero (tv (tid s0, E fnan))) = true) by (apply fadd_nan_r; exact E_nan).
+    revert N0. generalize (fadd fzero (tv (tid s0, E fnan))).
+    intros acc Na l. revert acc Na. induction l as [|y l IH]; intros acc Na; [easy|]. cbn [fold_left].
+    apply IH. now destruct acc. }
+  assert (Hpne : softmax E sc <> []) by (unfold softmax; destruct sc; easy).
+  assert (X := filters_alln (softmax E sc) (p_topp pr) (p_minp pr) r Hpne Hp).
+  now destruct (minP (topP (softmax E sc) (p_topp pr)) (p_minp pr)).
+Qed.
+
+Theorem Sample_all_masked : forall temp k topp minp logits r,
+  params_ok temp topp minp -> logits <> [] -> Forall (fun x => x = ninf) logits ->
+  feq (p_temp (new_sampler temp k topp minp)) fzero = false ->
+  Sample E (new_sampler temp k topp minp) logits r = ErrNaN.
+Proof.
+  intros temp k topp minp logits r Hp Hne Hall Fz.
+  set (pr := new_sampler temp k topp minp) in *.
+  destruct (new_sampler_facts temp k topp minp Hp) as (_ & _ & M3). fold pr in M3. destruct (M3 Fz) as (T1 & T2 & T3).
+  unfold Sample. destruct logits as [|l0 lr]; [easy|]. cbv beta iota. set (logits := l0 :: lr) in *.
+  set (ts := enumerate 0 logits).
+  assert (Hl : Forall num logits).
+  { apply Forall_forall. intros x Hx. rewrite (proj1 (Forall_forall _ _) Hall x Hx). apply num_ninf. }
+  assert (Hts : numl ts) by now apply enumerate_numl.
+  assert (Htne : ts <> []) by easy.
+  unfold sample. destruct ts as [|t0 trest] eqn:Ets; [easy|]. rewrite Fz. rewrite <- Ets in *.
+  destruct (legal_facts ts (p_topk pr) (topK ts (p_topk pr)) Hts Htne (topK_legal ts _ Hts)) as (L1 & L2 & L3 & h & rest & ES & _).
+  apply after_topk_all_masked; try easy.
+  - now rewrite ES.
+  - apply Forall_forall. intros t Ht. apply L2 in Ht. destruct (enumerate_In logits 0 t Ht) as (_ & R2).
+    apply nth_error_In in R2. exact (proj1 (Forall_forall _ _) Hall _ R2).
+Qed.
+
+(** ** bounds safety: Sample never indexes out of range *)
+Theorem Sample_no_panic : forall temp k topp minp logits r,
+  params_ok temp topp minp -> draw_ok r -> Forall num logits ->
+  Sample E (new_sampler temp k topp minp) logits r <> Panic.
+Proof.
+  intros temp k topp minp logits r Hp Hr Hl.
+  destruct logits as [|l0 lr] eqn:El; [easy|]. rewrite <- El in *. assert (Hne : logits <> []) by now rewrite El.
+  destruct (feq (p_temp (new_sampler temp k topp minp)) fzero) eqn:Fz.
+  - destruct (Sample_greedy temp k topp minp logits r Hl Hne Fz) as (a & -> & _). easy.
+  - destruct (forallb is_ninf logits) eqn:Fa.
+    + rewrite Sample_all_masked; try easy.
+      apply Forall_forall. intros x Hx. rewrite forallb_forall in Fa. specialize (Fa x Hx).
+      destruct x as [s|[|]| |s m e]; easy.
+    + assert (Ex : exists x, In x logits /\ x <> ninf).
+      { destruct (existsb (fun x => negb (is_ninf x)) logits) eqn:Eb.
+        - apply existsb_exists in Eb. destruct Eb as (x & X1 & X2). exists x. split; [easy|]. intros ->. easy.
+        - exfalso. assert (forallb is_ninf logits = true); [|congruence].
+          apply forallb_forall. intros x Hx.
+          destruct (is_ninf x) eqn:Nx; [easy|]. exfalso.
+          assert (existsb (fun x => negb (is_ninf x)) logits = true) by (apply existsb_exists; exists x; now rewrite Nx).
+          congruence. }
+      destruct (Sample_admissible temp k topp minp logits r Hp Hr Hl Ex) as (a & v & -> & _). easy.
+Qed.
+
+End Sampler.
+
+(** * determinism: the result is a function of logits, parameters and the draws consumed *)
+Fixpoint ndraws (pr : params) (stream : list (list sf)) : nat :=
+  match stream with
+  | [] => O
+  | l :: rest => (if draws pr l then 1 else 0) + ndraws pr rest
+  end.
+
+Lemma Sample_stream_draws : forall E pr stream rs1 rs2,
+  firstn (ndraws pr stream) rs1 = firstn (ndraws pr stream) rs2 ->
+  (ndraws pr stream <= length rs1)%nat -> (ndraws pr stream <= length rs2)%nat ->
+  Sample_stream E pr stream rs1 = Sample_stream E pr stream rs2.
+Proof.
+  intros E pr. induction stream as [|l rest IH]; intros rs1 rs2 H L1 L2; [easy|].
+  cbn [Sample_stream ndraws] in *. destruct (draws pr l).
+  - destruct rs1 as [|a rs1]; [cbn in L1; lia|]. destruct rs2 as [|b rs2]; [cbn in L2; lia|].
+    cbn in H. inversion H; subst. f_equal. apply IH; [easy|cbn in L1; lia|cbn in L2; lia].
+  - f_equal. now apply IH.
 Qed.
